@@ -1,6 +1,8 @@
 package main
 
 import (
+	"time"
+	"runtime"
 	"context"
 	"io"
 	"net/http/httptest"
@@ -108,6 +110,11 @@ func checkC05(c *Ctx) {
 	c.Set("compositions_replayed", int64(n))
 	c.Set("exhaustive", true)
 	c.Set("rule", "every core composition of CoreTree.tla up to the configured depth/enablers, every value sequence of the shared AtomicLevel up to MaxSet changes, every level class, every front end")
+	for _, f := range ctEntryOverlap(c.Pick(20, 200)) {
+		c.Violation(f.Key, f.What, map[string]interface{}{"scenario": "write-in-flight-overlap"})
+	}
+	c.Add("traces_validated_against_impl", 1)
+
 }
 
 // one logging front end: logs one entry at lvl (if it can express that level) and reports whether it did.
@@ -452,4 +459,101 @@ func replayHookStacks() (finds []Finding) {
 func observerNew() (zapcore.Core, interface{}) {
 	c, l := observer.New(zapcore.DebugLevel)
 	return c, l
+}
+
+// ---- a write in flight while another entry is checked and written ----
+
+type ctGateCore struct {
+	zapcore.LevelEnabler
+	entered, release chan struct{}
+	got             []string
+}
+
+func (c *ctGateCore) With([]zapcore.Field) zapcore.Core { return c }
+func (c *ctGateCore) Check(e zapcore.Entry, ce *zapcore.CheckedEntry) *zapcore.CheckedEntry {
+	if c.Enabled(e.Level) {
+		return ce.AddCore(e, c)
+	}
+	return ce
+}
+func (c *ctGateCore) Write(e zapcore.Entry, _ []zapcore.Field) error {
+	c.got = append(c.got, e.Message)
+	close(c.entered)
+	<-c.release
+	return nil
+}
+func (c *ctGateCore) Sync() error { return nil }
+
+// ctEntryOverlap: logger A's entry is being written to the first of its cores (a slow sink) when logger B, whose
+// cores enable other levels, logs an entry completely. Every core receives exactly the entries of its own logger
+// that its level enables. One P, so that pooled objects are handed from one call to the next.
+func ctEntryOverlap(rounds int) (finds []Finding) {
+	add := func(key, f string, a ...interface{}) {
+		if len(finds) < 3 {
+			finds = append(finds, Finding{Key: key, What: fmt.Sprintf(f, a...)})
+		}
+	}
+	prev := runtime.GOMAXPROCS(1)
+	defer runtime.GOMAXPROCS(prev)
+	for r := 0; r < rounds && len(finds) == 0; r++ {
+		g := &ctGateCore{LevelEnabler: zapcore.DebugLevel, entered: make(chan struct{}), release: make(chan struct{})}
+		a2, a2logs := observer.New(zapcore.DebugLevel)
+		a3, a3logs := observer.New(zapcore.DebugLevel)
+		x, xlogs := observer.New(zapcore.ErrorLevel)
+		y, ylogs := observer.New(zapcore.ErrorLevel)
+		z, zlogs := observer.New(zapcore.WarnLevel)
+		la := zap.New(zapcore.NewTee(g, a2, a3))
+		var lb *zap.Logger
+		if r%2 == 0 {
+			lb = zap.New(zapcore.NewTee(x, y))
+		} else {
+			lb = zap.New(zapcore.NewTee(x, y, z))
+		}
+		done := make(chan interface{}, 1)
+		go func() {
+			defer func() { done <- recover() }()
+			la.Debug("from-A", zap.Int("r", r))
+		}()
+		select {
+		case <-g.entered:
+		case <-time.After(2 * time.Second):
+			return append(finds, Finding{Key: "HARNESS/C05-overlap", What: "logger A never reached its first core"})
+		}
+		var pb interface{}
+		func() {
+			defer func() { pb = recover() }()
+			lb.Error("from-B")
+			lb.Error("from-B2")
+		}()
+		close(g.release)
+		pa := <-done
+		if pa != nil || pb != nil {
+			add("C05/panic", "an entry logged while another logger's entry was still being written to the first of its cores: panic %v / %v", pa, pb)
+			continue
+		}
+		msgs := func(l *observer.ObservedLogs) string {
+			out := []string{}
+			for _, e := range l.All() {
+				out = append(out, e.Level.String()+":"+e.Message)
+			}
+			return strings.Join(out, ",")
+		}
+		want := map[string][2]string{
+			"A's second core (debug)": {msgs(a2logs), "debug:from-A"}, "A's third core (debug)": {msgs(a3logs), "debug:from-A"},
+			"B's first core (error)": {msgs(xlogs), "error:from-B,error:from-B2"}, "B's second core (error)": {msgs(ylogs), "error:from-B,error:from-B2"},
+		}
+		if r%2 == 1 {
+			want["B's third core (warn)"] = [2]string{msgs(zlogs), "error:from-B,error:from-B2"}
+		}
+		for name, gw := range want {
+			if gw[0] != gw[1] {
+				key := "C05/delivery:missing"
+				if strings.Contains(gw[0], "debug:") && strings.Contains(name, "B's") {
+					key = "C05/delivery:extra"
+				}
+				add(key, "logger A (tee of three debug cores, the first one slow) logs a debug entry; while it is inside its first core, logger B (error-level cores) logs two entries. %s received [%s], want [%s]", name, gw[0], gw[1])
+			}
+		}
+	}
+	return finds
 }
